@@ -68,9 +68,9 @@ func (s *JoiningVisitor) EnterOC_NotExpression(ctx *parser.OC_NotExpressionConte
 }
 
 func (s *JoiningVisitor) ExitOC_NotExpression(ctx *parser.OC_NotExpressionContext) {
-	if len(ctx.AllNOT()) > 0 {
+	if numNegations := len(ctx.AllNOT()); numNegations > 0 {
 		visitor := s.ctx.Exit().(*NegationVisitor)
-		s.Joined.Add(visitor.Negation)
+		s.Joined.Add(nestNegations(visitor.Negation, numNegations))
 	}
 }
 
